@@ -130,6 +130,7 @@ pub struct Ctx {
     pub counting: bool,
     journal: Option<std::fs::File>,
     pub max_violations: usize,
+    pub max_shrink_iters: u32,
 }
 
 impl Ctx {
@@ -159,6 +160,7 @@ impl Ctx {
             counting: true,
             journal: None,
             max_violations: 3,
+            max_shrink_iters: 20_000,
         }
     }
 
@@ -258,7 +260,7 @@ impl Ctx {
         let mut cfg = Config::default();
         cfg.cases = cases;
         cfg.failure_persistence = None;
-        cfg.max_shrink_iters = 20_000;
+        cfg.max_shrink_iters = self.max_shrink_iters;
         cfg.max_global_rejects = 1_000_000;
         cfg.max_local_rejects = 1_000_000;
         cfg.verbose = 0;
